@@ -1490,7 +1490,9 @@ fn gen_one(rng: &mut Rng, tier: Tier, interpret: bool, partial: &Mutex<Partial>)
     // a long idle stretch first: ≥ 10 consecutive empty hand-offs, so the idle back-off reaches its cap (500 ms at
     // the 9th wait), with sender ops inside the windows of those LATE idle waits (and between them)
     let idle_heavy = !never_runs && rng.chance(1, 8);
-    let idle_len = if idle_heavy { rng.range(12, 20) as usize } else { 0 };
+    // … one idle stretch in four goes past 32 consecutive waits (any closed form of the doubling delay in 32-bit
+    // arithmetic has run out of bits by then; the delay sits at its cap from the 9th wait on)
+    let idle_len = if idle_heavy { if rng.chance(1, 4) { rng.range(33, 40) as usize } else { rng.range(12, 20) as usize } } else { 0 };
     let len = len.max(idle_len + if idle_heavy { 6 } else { 0 });
     let keep_alive = idle_heavy && rng.chance(3, 4);
     let drop_s_at = if !keep_alive && rng.chance(1, 3) { Some(rng.usize(len + 1)) } else { None };
